@@ -11,10 +11,25 @@ E_EOS, E_CLOSED, E_SHORT = 1, 2, 3
 E_HANG, E_PANIC = 98, 97
 
 
+def corpus_cases(key):
+    """minimised earlier failures under corpus/C16: always run first"""
+    import glob
+    import json
+    import os
+    import lib
+    out = []
+    for fn in sorted(glob.glob(os.path.join(lib.VERIF, "corpus", "C16", "*.json"))):
+        with open(fn) as f:
+            out += json.load(f).get(key, [])
+    return out
+
+
 def replay_cases(ctx, key):
     """cases of one sub-check stored in a replay file written by a previous run"""
     rp = ctx.replay or {}
     out = list(rp.get(key, []))
+    if not ctx.replay:
+        return corpus_cases(key)
     for f in list(rp.get("failures", [])) + list(rp.get("theorem_or_correspondence", [])) + list(rp.get("broken", [])):
         out += ((f or {}).get("case") or {}).get(key, [])
     return out
@@ -653,6 +668,18 @@ def run_reg(ctx):
                 if cidx in seen:
                     bad = ("double-delivery", "connection %d delivered to acceptors %d and %d" % (cidx, seen[cidx], a))
                 seen[cidx] = a
+        # a refused second accept must leave the registrations of the first untouched
+        first_op = {}
+        for i, (o, t) in enumerate(c["ops"]):
+            if o in ("start", "astep") and t not in first_op and (o == "start") == c["areal"][t]:
+                first_op[t] = i
+        for a, x in enumerate(ares):
+            i = first_op.get(a)
+            if x == 1 and i is not None and 0 < i < len(steps):
+                if (steps[i]["ncerts"], steps[i]["nchans"]) != (steps[i - 1]["ncerts"], steps[i - 1]["nchans"]):
+                    bad = ("duplicate-accept-disturbs-first", "the refused accept %d (secret %d already registered) changed the maps "
+                           "from %d/%d to %d/%d entries" % (a, c["asec"][a], steps[i - 1]["ncerts"], steps[i - 1]["nchans"],
+                                                            steps[i]["ncerts"], steps[i]["nchans"]))
         if steps and all(p in (0, 5) for p in apc) and (steps[-1]["ncerts"] or steps[-1]["nchans"]):
             bad = ("registry-leak", "after every accept returned: %d certificate entr(y/ies), %d channel entr(y/ies) left"
                    % (steps[-1]["ncerts"], steps[-1]["nchans"]))
